@@ -12,6 +12,12 @@ if "--" in args:
     i = args.index("--"); only = args[i+1:]; args = args[:i]
 seeds = [int(a) for a in args] or [1, 2, 3]
 man = json.load(open(os.path.join(VERIF, "MANIFEST.json")))
+try:      # extended checks (beyond the listed properties) are soaked too
+    for x in json.load(open(os.path.join(VERIF, "EXTENDED.json")))["checks"]:
+        man["checks"].append({"property_id": x["id"], "quick_cmd": x["quick_cmd"],
+                              "thorough_cmd": x["thorough_cmd"]})
+except FileNotFoundError:
+    pass
 bad = []
 for c in man["checks"]:
     pid = c["property_id"]
